@@ -330,6 +330,14 @@ class Inliner(object):
                     return True
                 if not is_method and isinstance(n, ast.Name) and n.id == name and isinstance(n.ctx, ast.Load) and not any(n is x for x in ast.walk(skip)):
                     return True
+            if not is_method:
+                # used from another module: `csv_utils.helper(..)`, `from .csv_utils import helper`
+                for oname, omod in self.port.modules.items():
+                    if omod is mod:
+                        continue
+                    for n in ast.walk(omod):
+                        if (isinstance(n, ast.Attribute) and n.attr == name) or (isinstance(n, ast.Name) and n.id == name) or (isinstance(n, ast.alias) and n.name == name):
+                            return True
             return False
         for name, fd in list(funcs.items()):
             if fd in mod.body and not referenced(name, False, fd) and not any(name == getattr(e, 'id', None) for st in mod.body if isinstance(st, ast.Assign) for e in ast.walk(st)):
